@@ -66,8 +66,11 @@ def resolve(name, aliases):
     head, _, rest = name.partition('.')
     if name == 'Exception':
         return Exception
-    if head in ('ValueError', 'TypeError', 'KeyError') and not rest:
-        return {'ValueError': ValueError, 'TypeError': TypeError, 'KeyError': KeyError}[head]
+    if not rest:
+        import builtins
+        b = getattr(builtins, head, None)
+        if isinstance(b, type) and issubclass(b, BaseException):
+            return b            # ValueError, TypeError, KeyError, OverflowError ...: Python's own exception classes
     if head not in aliases:
         raise Fail('cannot resolve exception %r' % name)
     mod = importlib.import_module(aliases[head])
